@@ -198,8 +198,9 @@ impl Rule {
 /// segments used in generated rules and words (all parse; chosen so that groups, features and
 /// places are all represented, with a few diacritic and multi-character ones)
 pub const CONS: [&str; 31] = ["p", "t", "k", "b", "d", "ɡ", "m", "n", "ŋ", "s", "z", "f", "v", "x", "h", "ʔ", "l", "r", "j", "w", "t͡s", "d͡ʒ", "ʃ", "q", "pʰ", "kʷ", "tʲ", "ᵐb", "ɲ", "θ", "ɟ"];
-// (õ and ɚ are precomposed letters which the program splits in two before reading a word)
-pub const VOWS: [&str; 14] = ["a", "e", "i", "o", "u", "ə", "ɛ", "ɔ", "y", "ɯ", "ã", "æ", "õ", "ɚ"];
+// (nasalised and rhotacised vowels in their decomposed spelling, the only one rules and alias lines accept; `rand_word` writes the
+// precomposed letters ã õ ɚ half of the time, which the program splits in two before reading a word)
+pub const VOWS: [&str; 14] = ["a", "e", "i", "o", "u", "ə", "ɛ", "ɔ", "y", "ɯ", "a\u{0303}", "æ", "o\u{0303}", "ə\u{02DE}"];
 pub const GROUPS: [char; 9] = ['C', 'O', 'S', 'P', 'F', 'L', 'N', 'G', 'V'];
 pub const TONES: [u16; 6] = [5, 51, 214, 35, 1234, 3];
 /// tone literals as written in rules: also with zeros, which the manual says are dropped (`[tone: 30]` is tone 3, `10234` is 1234)
@@ -238,6 +239,7 @@ pub fn rand_word(r: &mut Rng, c: &WordCfg) -> String {
         // (a tone may be written with zeros, which do not count: 105 is 15)
         if c.tone && r.chance(1, 6) { if r.chance(1, 12) { out.push_str(*r.pick(&["105", "50", "0", "3040"])) } else { out.push_str(&r.pick(&TONES).to_string()) } prev_tone = true; }
     }
+    if r.chance(1, 2) { out = out.replace("a\u{0303}", "ã").replace("o\u{0303}", "õ").replace("ə\u{02DE}", "ɚ"); }
     out
 }
 
